@@ -9,17 +9,21 @@ Trace == ndJsonDeserialize("trace.ndjson")
 VARIABLES deps,      \* scenario: target -> set of resolved dependencies (pseudo-targets for undefined ones)
           req,       \* requested targets
           expectOK,  \* scenario: the spec's verdict whether every requested target can be built
-          started, ended, ok, reported, exited, l
-vars == <<deps, req, expectOK, started, ended, ok, reported, exited, l>>
+          pkgOf,     \* scenario: target -> the package whose BUILD file defines it
+          started, ended, ok, reported, exited, l,
+          parsing, parsed, pfailed    \* packages whose BUILD file is being interpreted / was interpreted / failed to be
+vars == <<deps, req, expectOK, pkgOf, started, ended, ok, reported, exited, l, parsing, parsed, pfailed>>
 ASSUME TLCSet(1, 0)
 Empty == [x \in {} |-> {}]
-TInit == /\ deps = Empty /\ req = {} /\ expectOK = TRUE /\ started = {} /\ ended = {} /\ ok = {}
-         /\ reported = <<>> /\ exited = FALSE /\ l = 1
+TInit == /\ deps = Empty /\ req = {} /\ expectOK = TRUE /\ pkgOf = Empty /\ started = {} /\ ended = {} /\ ok = {}
+         /\ reported = <<>> /\ exited = FALSE /\ l = 1 /\ parsing = {} /\ parsed = {} /\ pfailed = {}
 Ev(e) == l <= Len(Trace) /\ Trace[l].ev = e /\ l' = l + 1
 TReset == /\ Ev("Reset")
           /\ deps' = [t \in DOMAIN Trace[l].deps |-> ToSet(Trace[l].deps[t])]
           /\ req' = ToSet(Trace[l].req) /\ expectOK' = Trace[l].expectOK
+          /\ pkgOf' = Trace[l].pkgs
           /\ started' = {} /\ ended' = {} /\ ok' = {} /\ reported' = <<>> /\ exited' = FALSE
+          /\ parsing' = {} /\ parsed' = {} /\ pfailed' = {}
 \* C04: a command starts at most once, and only after every dependency's command ended successfully
 \* C05: ... so never below a failed dependency
 TStart == /\ Ev("Start") /\ ~exited
@@ -28,21 +32,39 @@ TStart == /\ Ev("Start") /\ ~exited
                /\ deps[t] \subseteq ok
                \* "finished building": the dependency's terminal report has been made, not merely its command ended
                /\ \A d \in deps[t] : Contains(reported, d)
+               \* a target exists only once its package's BUILD file has been interpreted successfully
+               /\ (t \in DOMAIN pkgOf => pkgOf[t] \in parsed)
                /\ started' = started \cup {t}
-          /\ UNCHANGED <<deps, req, expectOK, ended, ok, reported, exited>>
+          /\ UNCHANGED <<deps, req, expectOK, pkgOf, ended, ok, reported, exited, parsing, parsed, pfailed>>
 TEnd == /\ Ev("End") /\ ~exited
         /\ LET t == Trace[l].t IN
              /\ t \in started /\ t \notin ended
              /\ ended' = ended \cup {t}
              /\ ok' = IF Trace[l].rc = 0 THEN ok \cup {t} ELSE ok
-        /\ UNCHANGED <<deps, req, expectOK, started, reported, exited>>
+        /\ UNCHANGED <<deps, req, expectOK, pkgOf, started, reported, exited, parsing, parsed, pfailed>>
 \* C04: a terminal report (built / cached / failed) for a target whose command ran comes after the command
 \* ended and at most once
 TReport == /\ Ev("Report") /\ ~exited
            /\ LET t == Trace[l].t IN
                 /\ t \in started => (t \in ended /\ ~Contains(reported, t))
                 /\ reported' = IF t \in started THEN Append(reported, t) ELSE reported
-           /\ UNCHANGED <<deps, req, expectOK, started, ended, ok, exited>>
+           /\ UNCHANGED <<deps, req, expectOK, pkgOf, started, ended, ok, exited, parsing, parsed, pfailed>>
+\* parse side (C04: targets discovered during parsing; C05: a package that does not parse): every package's BUILD
+\* file is interpreted at most once per invocation, by one task; the others wait for it
+Same == UNCHANGED <<deps, req, expectOK, pkgOf, started, ended, ok, reported, exited>>
+TParseBegin == /\ Ev("ParseBegin") /\ ~exited
+               /\ Trace[l].p \notin (parsing \cup parsed \cup pfailed)
+               /\ parsing' = parsing \cup {Trace[l].p} /\ UNCHANGED <<parsed, pfailed>> /\ Same
+TParseEnd == /\ Ev("ParseEnd") /\ ~exited
+             /\ Trace[l].p \in parsing
+             /\ parsing' = parsing \ {Trace[l].p} /\ parsed' = parsed \cup {Trace[l].p} /\ UNCHANGED pfailed /\ Same
+\* a failure is reported by the parsing task (the package failed) or by a task activating a target in a parsed
+\* package ("doesn't contain target"), or before any package was looked at
+TParseFail == /\ Ev("ParseFail") /\ ~exited
+              /\ IF Trace[l].p \in parsing
+                 THEN parsing' = parsing \ {Trace[l].p} /\ pfailed' = pfailed \cup {Trace[l].p} /\ UNCHANGED parsed
+                 ELSE pfailed' = pfailed \cup {"-"} /\ UNCHANGED <<parsing, parsed>>
+              /\ Same
 RECURSIVE Clo(_, _)
 Clo(S, n) == IF n = 0 THEN S ELSE Clo(S \cup UNION {deps[x] : x \in S \cap DOMAIN deps}, n - 1)
 Needed == Clo(req, Cardinality(DOMAIN deps) + 1)
@@ -54,9 +76,11 @@ TExit == /\ Ev("Exit") /\ ~exited
          /\ (Trace[l].code = 0) <=> (Needed \subseteq ok)
          /\ (Trace[l].code = 0) <=> expectOK
          /\ \A t \in ended : Contains(reported, t)
+         \* packages are only looked at because a requested target needs them: any parse failure fails the invocation
+         /\ (Trace[l].code = 0) => pfailed = {}
          /\ exited' = TRUE
-         /\ UNCHANGED <<deps, req, expectOK, started, ended, ok, reported>>
-TNext == TReset \/ TStart \/ TEnd \/ TReport \/ TExit
+         /\ UNCHANGED <<deps, req, expectOK, pkgOf, started, ended, ok, reported, parsing, parsed, pfailed>>
+TNext == TReset \/ TStart \/ TEnd \/ TReport \/ TExit \/ TParseBegin \/ TParseEnd \/ TParseFail
 HW == TLCSet(1, IF l > TLCGet(1) THEN l ELSE TLCGet(1))
 Accepted == /\ PrintT(<<"NOTE", ToJson([hw |-> TLCGet(1)])>>)
             /\ TLCGet(1) = Len(Trace) + 1
